@@ -253,11 +253,11 @@ Proof. intros H. cbn [mem_N]. rewrite H. apply orb_true_r. Qed.
 Lemma mem_N_app id l1 l2 : mem_N id l2 = true -> mem_N id (l1 ++ l2) = true.
 Proof. intros H. induction l1 as [|x l1 IH]; cbn [app mem_N]; [assumption|]. rewrite IH. apply orb_true_r. Qed.
 
-Lemma tick_next_fields st h rest acc st' o :
-  tick_next st h rest acc = StepOk st' o ->
+Lemma tick_next_fields c st h rest acc st' o :
+  tick_next c st h rest acc = StepOk st' o ->
   s_buf st' = s_buf st /\ s_done st' = s_done st /\ s_clients st' = s_clients st /\ s_pc st' <> PExited.
 Proof.
-  unfold tick_next. destruct rest; [intros H; inversion H; subst; sproj; repeat split; discriminate|].
+  unfold tick_next. destruct rest; [intros H; open_prep H; inversion H; subst; sproj; repeat split; discriminate|].
   destruct (h_tick_key h); [|discriminate]. destruct (aget _ _); [|discriminate].
   intros H; inversion H; subst; sproj; repeat split; discriminate.
 Qed.
@@ -343,9 +343,9 @@ Proof.
         eapply G; [| | |exact DB]; sproj; auto.
         intros b id Hw. rewrite client_of_set in Hw. destruct (N.eqb_spec b a0); [|assumption].
         destruct Hw as [Hx|Hx]; discriminate.
-  - destruct added; inversion H; subst; wi_same WI.
+  - destruct added; [open_track H|]; inversion H; subst; wi_same WI.
   - unfold next_victim in H. destruct victims; inversion H; subst; wi_same WI.
-  - destruct v as [vk vcost]. destruct (st_try_remove _ _ _) as [sto prev]. unfold next_victim in H.
+  - destruct v as [vk vcost]. destruct (st_try_remove _ _ _) as [sto prev]. open_prep H. unfold next_victim in H.
     destruct rest; inversion H; subst; wi_same WI.
   - destruct (st_try_remove _ _ _) as [sto prev]. inversion H; subst. wi_same WI.
   - inversion H; subst. wi_same WI.
@@ -544,11 +544,11 @@ Proof.
   - inversion H; subst. ce_same CE st.
 Qed.
 
-Lemma tick_next_pc st h rest acc st' o :
-  tick_next st h rest acc = StepOk st' o ->
+Lemma tick_next_pc c st h rest acc st' o :
+  tick_next c st h rest acc = StepOk st' o ->
   (forall sig, s_pc st' <> PClearAfterPolicy sig) /\ (forall sig, s_pc st' <> PClearAfterStore sig).
 Proof.
-  unfold tick_next. destruct rest; [intros H; inversion H; subst; sproj; split; discriminate|].
+  unfold tick_next. destruct rest; [intros H; open_prep H; inversion H; subst; sproj; split; discriminate|].
   destruct (h_tick_key h); [|discriminate]. destruct (aget _ _); [|discriminate].
   intros H; inversion H; subst; sproj; split; discriminate.
 Qed.
@@ -578,9 +578,9 @@ Proof.
       * destruct (find_offer false (s_clients st)) as [a0|]; [|discriminate].
         destruct (client_of st a0); try discriminate.
         destruct (drain_buffer _) as [st2 cbs]. inversion H; subst. ce_other.
-  - destruct added; inversion H; subst; ce_other.
+  - destruct added; [open_track H|]; inversion H; subst; ce_other.
   - unfold next_victim in H. destruct victims; inversion H; subst; ce_other.
-  - destruct v as [vk vcost]. destruct (st_try_remove _ _ _) as [sto prev]. unfold next_victim in H.
+  - destruct v as [vk vcost]. destruct (st_try_remove _ _ _) as [sto prev]. open_prep H. unfold next_victim in H.
     destruct rest; inversion H; subst; ce_other.
   - destruct (st_try_remove _ _ _) as [sto prev]. inversion H; subst. ce_other.
   - (* after drain: the policy is emptied *)
